@@ -212,8 +212,18 @@ impl Archive {
         let mut blocks = HashSet::new();
         for band_id in band_ids {
             let band = Band::open(&archive, *band_id).await?;
-            let mut iter = band.index().iter_available_hunks().await;
-            while let Some(hunk) = iter.next().await {
+            // Read every hunk that is present, and fail if any cannot be read: a hunk that
+            // is skipped would be taken to reference nothing, and garbage collection would
+            // then delete blocks that are still in use.
+            let mut index = band.index();
+            for hunk_number in index.hunks_available().await? {
+                let hunk = index.read_hunk(hunk_number).await?.ok_or_else(|| {
+                    Error::InvalidMetadata {
+                        details: format!(
+                            "Index hunk {hunk_number} of {band_id} is listed but cannot be read"
+                        ),
+                    }
+                })?;
                 for addr in hunk.into_iter().flat_map(|entry| entry.addrs) {
                     blocks.insert(addr.hash);
                     task.increment(1);
